@@ -237,6 +237,11 @@ fn gen(max_opts: usize, lead4: bool) -> Vec<String> {
     // options only
     for a in OPTS {
         out.push(a.to_string());
+        // blanks around an options-only line
+        for (l, r) in [("", " "), (" ", ""), ("", "\n"), ("\t", "\t"), ("", "  \n")] {
+            out.push(format!("{l}{a}{r}"));
+            out.push(format!("{l}-depth {a}{r}"));
+        }
         for b in OPTS {
             out.push(format!("{a} {b}"));
             for c in OPTS {
